@@ -144,6 +144,8 @@ Record save_cfg := {
   read_sentinel : string;                (* read_directory: load the cache iff this exists *)
   resave_sentinel : string;              (* read_directory: obj.save(dir) unless this exists *)
   load_names : list (comp * string);     (* files read_npy_directory looks up *)
+  resave_mesh_read : bool;               (* read_directory(read_mesh_only=True) also does obj.save(dir)
+                                            (of the mesh-only object it parsed) *)
   glob_order : list string -> list string (* enumeration order of Path.glob (not translated:
                                              the theorems hold for every order) *)
 }.
@@ -151,7 +153,7 @@ Record save_cfg := {
 Definition with_order (cfg : save_cfg) (ord : list string -> list string) : save_cfg :=
   {| steps_full := steps_full cfg; steps_mesh := steps_mesh cfg;
      read_sentinel := read_sentinel cfg; resave_sentinel := resave_sentinel cfg;
-     load_names := load_names cfg; glob_order := ord |}.
+     load_names := load_names cfg; resave_mesh_read := resave_mesh_read cfg; glob_order := ord |}.
 
 (* an enumeration returns exactly the matching names (repetitions are harmless) *)
 Definition order_ok (ord : list string -> list string) : Prop :=
@@ -182,10 +184,15 @@ Definition load (cfg : save_cfg) (dr : dir) : option snap :=
   | _, _ => None
   end.
 
+(* read_npy_directory(dir, read_mesh_only=m): nodes and elements only when m *)
+Definition load_m (cfg : save_cfg) (m : bool) (dr : dir) : option snap :=
+  if m then match load cfg dr with Some x => Some (img x true) | None => None end
+  else load cfg dr.
+
 (* ---------- histories ---------- *)
 Inductive op :=
-| Read                                            (* read_directory(type, dir) *)
-| ReadCrash (k : nat)                             (* ... dying k effects into its obj.save *)
+| Read (m : bool)                                 (* read_directory(type, dir, read_mesh_only=m) *)
+| ReadCrash (m : bool) (k : nat)                  (* ... dying k effects into its obj.save *)
 | Save (d : snap) (mesh_only : bool)
 | SaveCrash (d : snap) (mesh_only : bool) (k : nat).
 
@@ -194,14 +201,20 @@ Inductive result :=
 | RParsed                                         (* the source files were parsed *)
 | RLoaded (r : option snap).                      (* the cache was loaded (None: it raised) *)
 
-Definition do_read (cfg : save_cfg) (src : snap) (crash : option nat) (dr : dir) : result * dir :=
-  if has (read_sentinel cfg) dr then (RLoaded (load cfg dr), dr)
-  else (RParsed, if has (resave_sentinel cfg) dr then dr else do_save cfg src false crash dr).
+(* without sentinel the source is parsed (the mesh only when m) and the parsed
+   object is saved with save_mesh_only=False *)
+Definition do_read (cfg : save_cfg) (src : snap) (m : bool) (crash : option nat) (dr : dir)
+  : result * dir :=
+  if has (read_sentinel cfg) dr then (RLoaded (load_m cfg m dr), dr)
+  else (RParsed,
+        if has (resave_sentinel cfg) dr then dr
+        else if m then (if resave_mesh_read cfg then do_save cfg (img src true) false crash dr else dr)
+             else do_save cfg src false crash dr).
 
 Definition step (cfg : save_cfg) (src : snap) (o : op) (dr : dir) : result * dir :=
   match o with
-  | Read => do_read cfg src None dr
-  | ReadCrash k => do_read cfg src (Some k) dr
+  | Read m => do_read cfg src m None dr
+  | ReadCrash m k => do_read cfg src m (Some k) dr
   | Save d m => (RNone, do_save cfg d m None dr)
   | SaveCrash d m k => (RNone, do_save cfg d m (Some k) dr)
   end.
@@ -231,9 +244,9 @@ Record spec := { must : bool; allowed : list snap }.
 
 Definition init_spec : spec := {| must := false; allowed := [] |}.
 
-Definition check_read (src : snap) (r : result) (st : spec) : bool :=
+Definition check_read (src : snap) (m : bool) (r : result) (st : spec) : bool :=
   match r with
-  | RLoaded (Some x) => existsb (snap_eqb x) (allowed st)
+  | RLoaded (Some x) => existsb (fun y => snap_eqb x (if m then img y true else y)) (allowed st)
   | RLoaded None => false
   | RParsed => negb (must st)
   | RNone => false
@@ -243,15 +256,18 @@ Definition spec_step (src : snap) (o : op) (r : result) (st : spec) : option spe
   match o with
   | Save d m => Some {| must := true; allowed := [img d m] |}
   | SaveCrash d m _ => Some {| must := false; allowed := img d m :: allowed st |}
-  | Read =>
-      if check_read src r st
+  (* whatever a read re-saves, only the FULL parse of the source may later be
+     served from the cache (a mesh-only read must not leave a mesh-only cache
+     that a later full read would load) *)
+  | Read m =>
+      if check_read src m r st
       then Some (match r with
                  | RParsed => {| must := false; allowed := img src false :: allowed st |}
                  | _ => st
                  end)
       else None
-  | ReadCrash _ =>
-      if check_read src r st
+  | ReadCrash m _ =>
+      if check_read src m r st
       then Some (match r with
                  | RParsed => {| must := false; allowed := img src false :: allowed st |}
                  | _ => st
@@ -386,7 +402,8 @@ Definition cfg_ok (cfg : save_cfg) : bool :=
   String.eqb (read_sentinel cfg) (resave_sentinel cfg)
   && names_ok cfg
   && steps_ok (read_sentinel cfg) (load_names cfg) false (steps_full cfg)
-  && steps_ok (read_sentinel cfg) (load_names cfg) true (steps_mesh cfg).
+  && steps_ok (read_sentinel cfg) (load_names cfg) true (steps_mesh cfg)
+  && negb (resave_mesh_read cfg).
 
 (* ---------- witness search (used when cfg_ok is false) ---------- *)
 (* three reference data sets: A has every component, B has no elemental data
@@ -398,16 +415,16 @@ Definition snapS : snap := Snap (Some 30%Z) (Some 31%Z) (Some 32%Z) None None (S
 Definition crash_points : list nat := seq 0 12.
 
 Definition base_ops : list op :=
-  [Read; Save snapA false; Save snapB false; Save snapB true; Save snapA true]
+  [Read false; Read true; Save snapA false; Save snapB false; Save snapB true; Save snapA true]
   ++ map (SaveCrash snapA false) crash_points
   ++ map (SaveCrash snapB false) crash_points
   ++ map (SaveCrash snapB true) crash_points
-  ++ map ReadCrash crash_points.
+  ++ map (ReadCrash false) crash_points.
 
 Definition histories (n : nat) : list (list op) :=
   (fix go (n : nat) : list (list op) :=
      match n with
-     | O => [[Read]]
+     | O => [[Read false]]
      | S k => flat_map (fun o => map (cons o) (go k)) base_ops
      end) n.
 
@@ -420,7 +437,7 @@ Definition find_violation (cfg : save_cfg) (n : nat) : option (list op) :=
 (* one witness per family of histories, so that distinct causes are reported
    separately *)
 Definition family (pre : list op) : list (list op) :=
-  map (fun o => (pre ++ [o; Read])%list) base_ops.
+  map (fun o => (pre ++ [o; Read false])%list) base_ops.
 
 Definition find_in (cfg : save_cfg) (hs : list (list op)) : option (list op) :=
   find (fun h => negb (conforms cfg snapS h [])) hs.
